@@ -57,67 +57,122 @@ def hop_coq(h):
         return "HSub %s %s" % (nat(h[1]), nat(h[2]))
     if h[0] == "unsub":
         return "HUnsub %s %s" % (nat(h[1]), nat(h[2]))
+    if h[0] == "stop":
+        return "HStop %s" % nat(h[1])
+    if h[0] == "respawn":
+        return "HSpawn %s" % nat(h[1])
     return "HEv %s" % nat(h[1])
+
+
+def concretise(sym_hist):
+    """number the events; ("life", p) stops actor p if it is alive and spawns it again if it is not"""
+    out, n, dead = [], 0, set()
+    for h in sym_hist:
+        if h[0] == "ev":
+            n += 1
+            out.append(["ev", n])
+        elif h[0] == "life":
+            if h[1] in dead:
+                dead.discard(h[1])
+                out.append(["respawn", h[1]])
+            else:
+                dead.add(h[1])
+                out.append(["stop", h[1]])
+        else:
+            out.append(list(h))
+    return out
 
 
 class Seq12(Part):
     name = "seq"
     family = "events12"
     exec_module = "EventsExec"
-    shard = 1200
+    shard = 700
     branch_names = {1: "sub_while_subscribed_same_object", 2: "sub_while_subscribed_other_object",
                     3: "unsub_through_other_object", 4: "unsub_while_not_subscribed", 5: "event_to_two_or_more",
-                    6: "event_to_nobody", 7: "resubscribe_after_unsub", 8: "event_after_resubscription"}
+                    6: "event_to_nobody", 7: "resubscribe_after_unsub", 8: "event_after_resubscription",
+                    9: "stop_of_a_subscribed_actor", 14: "respawned_actor_subscribes_again",
+                    15: "two_or_more_events_to_a_respawned_subscriber", 16: "sub_of_a_pid_nobody_is_registered_under",
+                    17: "local_and_foreign_pid_with_one_id_subscribed", 18: "unsub_of_one_of_such_a_pair",
+                    19: "event_to_a_foreign_subscriber"}
 
     def generate(self, rng, tier):
         cases = []
+        quick = tier == "quick"
 
-        def number(sym_hist):
-            out, n = [], 0
-            for h in sym_hist:
-                if h[0] == "ev":
-                    n += 1
-                    out.append(["ev", n])
-                else:
-                    out.append(list(h))
-            return out
+        def add(cls, npids, remote, sym):
+            cases.append({"input": {"kind": "seq", "npids": npids, "remote": remote, "hist": concretise(sym)},
+                          "class": cls})
+
+        def words(alpha, maxlen, minlen=1):
+            for n in range(minlen, maxlen + 1):
+                for combo in itertools.product(alpha, repeat=n - 1):
+                    yield list(combo) + [("ev",)]
 
         # exhaustive over a reduced alphabet: PID 0 through two objects; histories that end in an event
-        alpha = [("sub", 0, 0), ("sub", 0, 1), ("unsub", 0, 0), ("unsub", 0, 1), ("ev",)]
-        maxlen = 6 if tier == "quick" else 7
-        for n in range(1, maxlen + 1):
-            for combo in itertools.product(alpha, repeat=n - 1):
-                cases.append({"input": {"kind": "seq", "npids": 2, "hist": number(list(combo) + [("ev",)])},
-                              "class": "exhaustive5"})
+        for w in words([("sub", 0, 0), ("sub", 0, 1), ("unsub", 0, 0), ("unsub", 0, 1), ("ev",)], 5 if quick else 7):
+            add("exhaustive5", 2, False, w)
         # two PID values, three objects in all
-        alpha2 = [("sub", 0, 0), ("sub", 0, 1), ("unsub", 0, 1), ("sub", 1, 0), ("unsub", 1, 1), ("unsub", 0, 0), ("ev",)]
-        maxlen2 = 4 if tier == "quick" else 6
-        for n in range(2, maxlen2 + 1):
-            for combo in itertools.product(alpha2, repeat=n - 1):
-                cases.append({"input": {"kind": "seq", "npids": 2, "hist": number(list(combo) + [("ev",)])},
-                              "class": "exhaustive7"})
-        # random: 3 PID values x 2 objects, up to 25 steps
-        for _ in range(300 if tier == "quick" else 6000):
+        for w in words([("sub", 0, 0), ("sub", 0, 1), ("unsub", 0, 1), ("sub", 1, 0), ("unsub", 1, 1),
+                        ("unsub", 0, 0), ("ev",)], 3 if quick else 6, 2):
+            add("exhaustive7", 2, False, w)
+        # an actor that stops and is spawned again under its id, subscribing through two objects
+        for w in words([("sub", 0, 0), ("unsub", 0, 1), ("life", 0), ("ev",)], 6 if quick else 8, 2):
+            if ("life", 0) in w:
+                add("lifecycle4", 1, False, w)
+        if not quick:
+            for w in words([("sub", 0, 0), ("sub", 1, 0), ("unsub", 0, 1), ("life", 0), ("life", 1), ("ev",)], 6, 2):
+                add("lifecycle6", 2, False, w)
+        # the same id on this node and behind a foreign address (engine with a remote)
+        for w in words([("sub", 0, 0), ("sub", 50, 0), ("unsub", 0, 1), ("unsub", 50, 1), ("ev",)], 4 if quick else 6, 2):
+            add("remote5", 1, True, w)
+        if not quick:
+            for w in words([("sub", 0, 0), ("sub", 50, 0), ("sub", 51, 0), ("unsub", 0, 1), ("unsub", 50, 1),
+                            ("life", 0), ("ev",)], 5, 2):
+                add("remote7", 2, True, w)
+        # random: 3 local PID values and their foreign twins x 2 objects, stops and respawns, up to 25 steps
+        for k in range(200 if quick else 6000):
+            remote = k % 2 == 0
+            vals = [0, 1, 2] + ([50, 51, 52] if remote else [])
             hist = []
             for _ in range(rng.randint(1, 25)):
                 r = rng.random()
-                if r < 0.35:
-                    hist.append(("sub", rng.randrange(3), rng.randrange(2)))
-                elif r < 0.6:
-                    hist.append(("unsub", rng.randrange(3), rng.randrange(2)))
+                if r < 0.3:
+                    hist.append(("sub", rng.choice(vals), rng.randrange(2)))
+                elif r < 0.5:
+                    hist.append(("unsub", rng.choice(vals), rng.randrange(2)))
+                elif r < 0.65:
+                    hist.append(("life", rng.randrange(3)))
                 else:
                     hist.append(("ev",))
-            cases.append({"input": {"kind": "seq", "npids": 3, "hist": number(hist)}, "class": "random"})
+            add("random", 3, remote, hist)
         return cases
 
     def to_coq(self, inp, obs):
         logs = obs.get("logs") or []
-        return "K12 {| h_npids := %s; h_hist := %s; h_obs := %s |}" % (
-            nat(inp["npids"]), C.clist([hop_coq(h) for h in inp["hist"]]), C.clist([nats(l) for l in logs]))
+        rlogs = obs.get("rlogs") or []
+        return "K12 {| h_remote := %s; h_npids := %s; h_hist := %s; h_obs := %s; h_robs := %s |}" % (
+            C.cbool(bool(inp.get("remote"))), nat(inp["npids"]), C.clist([hop_coq(h) for h in inp["hist"]]),
+            C.clist([nats(l) for l in logs]), C.clist([nats(l) for l in rlogs]))
 
     def shrink(self, inp):
         h = inp["hist"]
-        return [dict(inp, hist=h[:i] + h[i + 1:]) for i in range(len(h)) if len(h) > 1]
+        out = []
+        for i in range(len(h)):
+            if len(h) > 1:
+                c = h[:i] + h[i + 1:]
+                # keep stop / respawn alternating per actor
+                ok, dead = True, set()
+                for x in c:
+                    if x[0] == "stop":
+                        ok = ok and x[1] not in dead
+                        dead.add(x[1])
+                    elif x[0] == "respawn":
+                        ok = ok and x[1] in dead
+                        dead.discard(x[1])
+                if ok:
+                    out.append(dict(inp, hist=c))
+        return out
 
 
 class Conc12(Part):
